@@ -182,7 +182,7 @@ var propRules = map[string]*PropSpec{
 		Technique:   techErr,
 	},
 	"C19": {
-		Rules:       []string{"PC1", "B1", "P1", "A7"},
+		Rules:       []string{"PC1", "PC2", "B1", "P1", "A7"},
 		Explanation: explBase + " C19: every whole-index operation touches every plane including the sign plane; (un)marshal errors propagate; per-plane goroutines are joined.",
 		Decided:     []string{"Clone/NewBSIRetainSet, ClearValues, ParOr, RunOptimize, Equals, WriteTo/ReadFrom ... iterate over all len(bA) planes (sign plane included)", "Marshal/Unmarshal/WriteTo/ReadFrom propagate errors", "per-plane goroutines are paired with a WaitGroup", "Clone/NewBSIRetainSet copy planes only from freshly cloned bitmaps (no shared headers)"},
 		NotDecided:  []string{"two's-complement encode/decode", "ripple-carry addition", "auto-widening / sign extension arithmetic"},
